@@ -133,6 +133,27 @@ func roleSrc(f *xlib.File, e ast.Expr, fd *ast.FuncDecl) string {
 	return src
 }
 
+// hashRole names a local of fd by the argument of the `Hash` call whose result is assigned to it:
+// `x, err := h.Hash(p, …)` makes x "hashOf(<role of p>)"; anything else stays "local:<name>".
+func hashRole(f *xlib.File, fd *ast.FuncDecl, name string) string {
+	role := "local:" + name
+	ast.Inspect(fd.Body, func(n ast.Node) bool {
+		as, ok := n.(*ast.AssignStmt)
+		if !ok || len(as.Lhs) == 0 || len(as.Rhs) != 1 {
+			return true
+		}
+		id, ok := as.Lhs[0].(*ast.Ident)
+		if !ok || id.Name != name {
+			return true
+		}
+		if c, ok := as.Rhs[0].(*ast.CallExpr); ok && calleeName(c) == "Hash" && len(c.Args) > 0 {
+			role = "hashOf(" + roleSrc(f, c.Args[0], fd) + ")"
+		}
+		return true
+	})
+	return role
+}
+
 // methodOf renders a call argument of the form x.M(...) as "M" (the object it is called on is a local name).
 func methodOf(f *xlib.File, e ast.Expr) string {
 	if c, ok := e.(*ast.CallExpr); ok {
@@ -233,13 +254,15 @@ func main() {
 		}
 		for _, st := range is.Body.List {
 			if rs, ok := st.(*ast.ReturnStmt); ok && len(rs.Results) == 2 && bs.Src(rs.Results[0]) == "false" && bs.Src(rs.Results[1]) == "nil" {
-				// shape only: a bare call on two plain identifiers (not the identifiers' names, no surrounding operators)
+				// a bare call on two locals; each local is named by WHAT IT IS THE HASH OF (the parameter passed to the
+				// Hash call that defines it), not by its identifier: bytes.Equal(hashOf(param3), hashOf(param2)) is
+				// "hash of the existing output vs hash of the new one"; comparing a hash with itself would show up
 				keepCond = roleSrc(bs, is.Cond, mofd)
 				if c, ok := is.Cond.(*ast.CallExpr); ok && len(c.Args) == 2 {
-					_, a0 := c.Args[0].(*ast.Ident)
-					_, a1 := c.Args[1].(*ast.Ident)
-					if a0 && a1 {
-						keepCond = bs.Src(c.Fun) + "(local, local)"
+					a0, ok0 := c.Args[0].(*ast.Ident)
+					a1, ok1 := c.Args[1].(*ast.Ident)
+					if ok0 && ok1 {
+						keepCond = bs.Src(c.Fun) + "(" + hashRole(bs, mofd, a0.Name) + ", " + hashRole(bs, mofd, a1.Name) + ")"
 					}
 				}
 			}
